@@ -6,8 +6,8 @@ The translator (`tools/pyast2lean.py`) turns every element / modifier template o
 these types.  The transpiler model (`Model/Transpile.lean`) produces terms of the same types,
 so that the real `ast.parse(transpile(p))` and the model can be compared node for node.
 
-Anything the serialiser does not know becomes `.other "<NodeName>"`; every analysis treats
-`.other` as "unknown" (never as harmless).
+Anything the serialiser does not know becomes `.other "<NodeName>" <child expressions> <child statements>`;
+analyses look through it conservatively (never treat it as harmless by default).
 -/
 namespace PyAst
 
@@ -37,7 +37,7 @@ inductive PyExpr
   | starred (e : PyExpr)
   | ifExp (c t e : PyExpr)
   | lambda (params : List String) (body : PyExpr)
-  | other (tag : String)
+  | other (tag : String) (children : List PyExpr)
   /- the next three are never produced by the serialiser: they are the only places where the
      transpiler model puts *program-supplied* text (C18) -/
   | cstrN (cps : List Nat)                       -- a string constant given by code points
@@ -59,7 +59,7 @@ inductive PyStmt
   | cont
   | pass
   | tryS (b : List PyStmt) (handlers : List (List PyStmt)) (orelse fin : List PyStmt)
-  | other (tag : String)
+  | other (tag : String) (es : List PyExpr) (ss : List PyStmt)
   deriving Repr
 
 end PyAst
